@@ -1447,7 +1447,8 @@ class AnsiString:
             if count > 0:
                 count -= 1
             # An empty old string matches before every character; step over one so that the loop moves on
-            idx = obj._s.find(old, idx + len(new) + (0 if old else 1))
+            # (length of what was inserted: a str may contain escape sequences which are not part of the text)
+            idx = obj._s.find(old, idx + len(replace) + (0 if old else 1))
 
         if inplace:
             self._s = obj._s
